@@ -736,8 +736,7 @@ func (ar *asyncRunner) start(nArgs int) {
 	ar.gen.vm = r.vm
 	ar.promiseCap = r.newPromiseCapability(r.getPromise())
 	sp := r.vm.sp
-	ar.gen.enter()
-	ar.vmCall(r.vm, nArgs)
+	ar.gen.start(ar.vmCall, nArgs)
 	res, resType, ex := ar.gen.step()
 	if ex != nil {
 		r.vm.sp = sp - nArgs - 2
@@ -767,6 +766,22 @@ func (g *generator) enter() {
 	g.vm.pushTryFrame(tryPanicMarker, -1)
 	g.vm.prg, g.vm.sb, g.vm.pc = nil, -1, -2 // so that vm.run() halts after ret
 	g.storeLengths()
+}
+
+// start sets up the generator's frames (see enter()) and enters the function.
+// If the function's own frame cannot be pushed (stack overflow) the frames set up by enter() are removed
+// before the error propagates, because the callers will not get to do that.
+func (g *generator) start(vmCall func(*vm, int), nArgs int) {
+	g.enter()
+	entered := false
+	defer func() {
+		if !entered {
+			g.vm.popTryFrame()
+			g.vm.popCtx()
+		}
+	}()
+	vmCall(g.vm, nArgs)
+	entered = true
 }
 
 func (g *generator) enterNextFinallyFrame() (canContinue bool) {
@@ -918,8 +933,7 @@ func (g *generatorObject) init(vmCall func(*vm, int), nArgs int) {
 	vm := g.val.runtime.vm
 	g.gen.vm = vm
 
-	g.gen.enter()
-	vmCall(vm, nArgs)
+	g.gen.start(vmCall, nArgs)
 
 	_, _, ex := g.gen.step()
 
